@@ -61,6 +61,18 @@ def _stub_cfunits():
 _imported = False
 
 
+def _single_threaded_dask():
+    # emsarray opens clipped datasets with open_mfdataset(lock=False); loading such a dataset
+    # with dask's threaded scheduler calls into HDF5 from several threads without a lock, which
+    # intermittently crashes or hangs the interpreter.  That is a scheduling hazard outside every
+    # listed property, so the harness evaluates lazily loaded data on one thread.
+    try:
+        import dask
+        dask.config.set(scheduler="synchronous")
+    except Exception:
+        pass
+
+
 def import_emsarray():
     """Import emsarray from the tree under test and return the module."""
     global _imported
@@ -71,6 +83,7 @@ def import_emsarray():
         warnings.simplefilter("ignore")
         import emsarray
         import emsarray.conventions  # noqa: F401
+    _single_threaded_dask()
     here = os.path.realpath(os.path.dirname(emsarray.__file__))
     if here != os.path.realpath(EMS_DIR):
         raise HarnessError(
